@@ -24,7 +24,7 @@ from collections import OrderedDict
 import numpy as np
 
 from simkit.core import RunState, Sim, small_values, enc, dec
-from simkit.world import World, quiet
+from simkit.world import World, SEAM, SimFault, quiet
 
 NAMES = ["a", "b", "c", "fc", "w", "head"]
 
@@ -45,14 +45,16 @@ class ModSim(Sim):
     PROBES = ["shared_parameter_two_names", "shared_module_two_parents", "reassign_module_to_param", "reassign_param_to_module",
               "reassign_to_none", "reassign_to_plain", "reassign_same_kind", "wrong_type_registration_refused", "assign_before_init_refused",
               "depth3", "train_eval_on_inner_node", "freeze_on_inner_node", "zero_grad_with_unreachable_grads", "sequential_positional",
-              "sequential_ordered_dict", "sequential_call", "explicit_register_api", "num_params_mixed_trainable", "freeze_inside_no_grad"]
+              "sequential_ordered_dict", "sequential_call", "explicit_register_api", "num_params_mixed_trainable", "freeze_inside_no_grad",
+              "mode_call_interrupted_then_reissued", "apply_fn_visits_all", "apply_fn_callback_raised_then_continued",
+              "callers_ordered_dict_reused_after_construction"]
     RULE = ("one run = a seeded sequence of construction/assignment/registration/mode/freeze/zero_grad/query events on a forest of modules; "
             "distinct = hash of the event-kind sequence with the sharing/re-assignment pattern; non-trivial = some module reached depth >= 2 "
             "or a name was re-assigned or an object was shared")
 
     def knobs(self, rng, tier):
         return {"max_events": rng.randint(10, 50), "share": rng.random() < 0.6, "reassign": rng.random() < 0.6,
-                "n_mods": rng.randint(3, 12), "seq": rng.random() < 0.5}
+                "n_mods": rng.randint(3, 12), "seq": rng.random() < 0.5, "faulty": rng.random() < 0.35}
 
     # ------------------------------------------------------------------ state
     def start(self, knobs):
@@ -67,6 +69,9 @@ class ModSim(Sim):
         st.calllog = []
         st.next_mid = 0
         st.next_tag = 1000
+        st.pending = []
+        st.od = {}       # mid -> the caller's OrderedDict a Sequential was built from (the caller keeps using it)
+        st.kept = []     # exceptions the caller caught and keeps (their tracebacks keep frames alive)
 
         class Box(SG.nn.Module):
             def __init__(self):
@@ -148,6 +153,8 @@ class ModSim(Sim):
             shape = rng.choice([(2,), (3, 2), (1,), (2, 2)])
             return {"k": "new_param", "pid": len(st.P), "data": enc(small_values(rng, shape, np.float32, -2, 2)), "rg": rng.random() < 0.8}
         mids = sorted(st.M)
+        if st.pending:
+            return st.pending.pop(0)
         r = rng.random()
         if r < 0.34:
             mod = rng.choice(mids)
@@ -162,14 +169,20 @@ class ModSim(Sim):
                     placed = {self._mid_of(st, s.obj) for ss in st.slots.values() for s in ss.values() if s.kind == "module"}
                     cands = [m for m in cands if m not in placed]
                 if cands:
-                    return {"k": "setattr", "mod": mod, "name": name, "value": {"module": rng.choice(cands)}}
+                    ev = {"k": "setattr", "mod": mod, "name": name, "value": {"module": rng.choice(cands)}}
+                    if kn.get("faulty") and rng.random() < 0.15:
+                        ev["fault"] = {"kind": rng.choice(["alloc", "interrupt", "exit"]), "seam": "line", "at": rng.randint(1, 14)}
+                    return ev
             if c < 0.80:
                 pids = sorted(st.P)
                 if not kn["share"]:
                     placed = [s.obj for ss in st.slots.values() for s in ss.values() if s.kind == "param"]
                     pids = [p for p in pids if not any(st.P[p] is o for o in placed)]
                 if pids:
-                    return {"k": "setattr", "mod": mod, "name": name, "value": {"param": rng.choice(pids)}}
+                    ev = {"k": "setattr", "mod": mod, "name": name, "value": {"param": rng.choice(pids)}}
+                    if kn.get("faulty") and rng.random() < 0.15:
+                        ev["fault"] = {"kind": rng.choice(["alloc", "interrupt", "exit"]), "seam": "line", "at": rng.randint(1, 14)}
+                    return ev
             if c < 0.9:
                 return {"k": "setattr", "mod": mod, "name": name, "value": None}
             return {"k": "setattr", "mod": mod, "name": name, "value": {"plain": rng.randint(0, 5)}}
@@ -185,14 +198,50 @@ class ModSim(Sim):
             if val is None:
                 return {"k": "query", "mod": mod}
             return {"k": "register", "mod": mod, "name": rng.choice(NAMES), "api": api, "value": val, "bad": bad}
-        if r < 0.54:
-            return {"k": "mode", "mod": rng.choice(mids), "v": rng.choice(["train", "eval"])}
+        def fault(p, hi):
+            if kn.get("faulty") and rng.random() < p:
+                return {"kind": rng.choice(["alloc", "interrupt", "exit"]), "seam": "line", "at": rng.randint(1, hi)}
+            return None
+        if r < 0.52:
+            mod = rng.choice(mids)
+            ev = {"k": "mode", "mod": mod, "v": rng.choice(["train", "eval"])}
+            f = fault(0.25, 6 + 8 * len(self._reach_mods(st, mod)))
+            if f:
+                # crash point inside the propagation; the caller catches it and issues the call again
+                ev["fault"] = f
+                st.pending.append({"k": "mode", "mod": mod, "v": rng.choice(["train", "eval"])})
+            return ev
+        if r < 0.56:
+            # Module.apply(fn) with a callback that records its visits and may raise at the k-th module (caller catches and carries on)
+            mod = rng.choice(mids)
+            n = len(self._reach_mods(st, mod))
+            ev = {"k": "apply_fn", "mod": mod, "raise_at": rng.randint(1, n) if rng.random() < 0.5 else None,
+                  "exc": rng.choice(["ValueError", "KeyboardInterrupt", "StopIteration"])}
+            st.pending.append({"k": "mode", "mod": mod, "v": rng.choice(["train", "eval"])})
+            if rng.random() < 0.5:
+                st.pending.append({"k": "apply_fn", "mod": mod, "raise_at": None, "exc": "ValueError"})
+            return ev
         if r < 0.64:
-            return {"k": rng.choice(["freeze", "unfreeze"]), "mod": rng.choice(mids), "in_no_grad": rng.random() < 0.25}
+            ev = {"k": rng.choice(["freeze", "unfreeze"]), "mod": rng.choice(mids), "in_no_grad": rng.random() < 0.25}
+            f = fault(0.2, 40)
+            if f:
+                ev["fault"] = f
+                st.pending.append({"k": ev["k"], "mod": ev["mod"], "in_no_grad": False})
+            return ev
         if r < 0.72:
             return {"k": "grads"}
         if r < 0.80:
-            return {"k": "zero_grad", "mod": rng.choice(mids)}
+            ev = {"k": "zero_grad", "mod": rng.choice(mids)}
+            f = fault(0.2, 60)
+            if f:
+                ev["fault"] = f
+                st.pending.append({"k": "zero_grad", "mod": ev["mod"]})
+            return ev
+        if r < 0.83 and st.od:
+            # the caller goes on using the OrderedDict a Sequential was built from
+            src = rng.choice(sorted(st.od))
+            return {"k": "od_mutate", "mod": src, "how": rng.choice(["add", "del", "replace", "clear"]), "tag": rng.randint(1, 9),
+                    "key": rng.choice(["q", "r", "s"]), "second": st.next_mid if rng.random() < 0.5 else None}
         if r < 0.84:
             return {"k": "bad_init"}
         if r < 0.90:
@@ -244,7 +293,8 @@ class ModSim(Sim):
                 st.probes["sequential_positional"] += 1
             else:
                 keys = ev["keys"]
-                m = SG.nn.Sequential(OrderedDict(zip(keys, tags)))
+                st.od[mid] = od = OrderedDict(zip(keys, tags))
+                m = SG.nn.Sequential(od)
                 st.probes["sequential_ordered_dict"] += 1
             for k, t in zip(keys, tags):
                 slots[k] = Slot("module", t)
@@ -313,7 +363,19 @@ class ModSim(Sim):
         if st.kind[mod] == "tag" or (kind != "module" and ev["name"] in ("tag", "log")):
             st.skipped += 1
             return
-        st.must("C12.assignment_raises", f"setattr({ev['name']!r}, {kind})", setattr, st.M[mod], ev["name"], obj)
+        try:
+            with SEAM.armed(ev.get("fault")):
+                st.must("C12.assignment_raises", f"setattr({ev['name']!r}, {kind})", setattr, st.M[mod], ev["name"], obj)
+        except SimFault as e:
+            # interrupted registration: the caller assigns again
+            st.kept.append(e)
+            st.faults["setattr_line_" + ev["fault"]["kind"]] += 1
+            st.must("C12.assignment_raises", f"setattr({ev['name']!r}, {kind}) after an interrupted one", setattr, st.M[mod], ev["name"], obj)
+            self._model_assign(st, mod, ev["name"], kind, obj)
+            if ev["name"] in st.slots[mod]:
+                st.slots[mod][ev["name"]].reassigned = True
+            self._check_query(st, mod, "after an interrupted and re-issued attribute assignment")
+            return
         self._model_assign(st, mod, ev["name"], kind, obj)
         self._check_query(st, mod, "after attribute assignment")
 
@@ -368,7 +430,7 @@ class ModSim(Sim):
 
     def _check_modes(self, st, where):
         for mid, m in st.M.items():
-            if bool(m.training) != st.mode[mid]:
+            if st.mode[mid] is not None and bool(m.training) != st.mode[mid]:
                 st.fail("C12.mode", f"{where}: module {mid} ({st.kind[mid]}) has training={m.training}, the tree model says {st.mode[mid]}", module=mid)
 
     def _ev_mode(self, st, ev):
@@ -377,8 +439,17 @@ class ModSim(Sim):
             st.skipped += 1
             return
         m = st.M[mod]
-        st.must("C12.mode_call_raises", ev["v"] + "()", getattr(m, ev["v"]))
         reach = self._reach_mods(st, mod)
+        try:
+            with SEAM.armed(ev.get("fault")):
+                st.must("C12.mode_call_raises", ev["v"] + "()", getattr(m, ev["v"]))
+        except SimFault as e:
+            st.kept.append(e)
+            st.faults["mode_line_" + ev["fault"]["kind"]] += 1
+            st.probes["mode_call_interrupted_then_reissued"] += 1
+            for r in reach:
+                st.mode[r] = None          # interrupted propagation: unknown until the next completed call that covers the module
+            return
         for r in reach:
             st.mode[r] = ev["v"] == "train"
         if len(reach) < len(st.M) and any(mod in self._reach_mods(st, o) for o in st.M if o != mod):
@@ -399,7 +470,16 @@ class ModSim(Sim):
             with st.SG.sg.no_grad():
                 st.must("C12.freeze_raises", "freeze()/unfreeze() inside no_grad", m.freeze if freeze else m.unfreeze)
         else:
-            st.must("C12.freeze_raises", "freeze()/unfreeze()", m.freeze if freeze else m.unfreeze)
+            try:
+                with SEAM.armed(ev.get("fault")):
+                    st.must("C12.freeze_raises", "freeze()/unfreeze()", m.freeze if freeze else m.unfreeze)
+            except SimFault as e:
+                st.kept.append(e)
+                st.faults["freeze_line_" + ev["fault"]["kind"]] += 1
+                for p in allp:
+                    if not any(p is q for q in reach) and bool(p.requires_grad) != before[id(p)]:
+                        st.fail("C12.freeze", f"interrupted freeze/unfreeze on module {mod} changed a parameter NOT reachable from it", module=mod)
+                return
         for p in allp:
             want = (not freeze) if any(p is q for q in reach) else before[id(p)]
             if bool(p.requires_grad) != want:
@@ -440,14 +520,21 @@ class ModSim(Sim):
         reach = self._reach_params(st, mod)
         allp = self._all_params(st)
         before = {id(p): (None if p._grad is None else p._grad.tobytes()) for p in allp}
-        st.must("C12.zero_grad_raises", "zero_grad()", m.zero_grad)
+        interrupted = False
+        try:
+            with SEAM.armed(ev.get("fault")):
+                st.must("C12.zero_grad_raises", "zero_grad()", m.zero_grad)
+        except SimFault as e:
+            st.kept.append(e)
+            st.faults["zero_grad_line_" + ev["fault"]["kind"]] += 1
+            interrupted = True
         unreach_with_grad = False
         for p in allp:
             inside = any(p is q for q in reach)
             with quiet():
                 g = p.grad
             if inside:
-                if p.requires_grad and g is not None and np.any(g.data):
+                if not interrupted and p.requires_grad and g is not None and np.any(g.data):
                     st.fail("C12.zero_grad", f"zero_grad() on module {mod} left a non-zero gradient on a reachable trainable parameter", module=mod)
             else:
                 now = None if g is None else g.data.tobytes()
@@ -457,6 +544,76 @@ class ModSim(Sim):
                     st.fail("C12.zero_grad", f"zero_grad() on module {mod} changed the gradient of a parameter that is not reachable from it", module=mod)
         if unreach_with_grad:
             st.probes["zero_grad_with_unreachable_grads"] += 1
+
+    def _ev_apply_fn(self, st, ev):
+        mod = ev["mod"]
+        if mod not in st.M:
+            st.skipped += 1
+            return
+        m = st.M[mod]
+        reach = self._reach_mods(st, mod)
+        seen = []
+        exc = {"ValueError": ValueError, "KeyboardInterrupt": KeyboardInterrupt, "StopIteration": StopIteration}[ev["exc"]]
+
+        def fn(x):
+            seen.append(x)
+            if ev["raise_at"] is not None and len(seen) == ev["raise_at"]:
+                raise exc("callback refuses this module")
+        try:
+            m.apply(fn)
+            raised = None
+        except (ValueError, KeyboardInterrupt, StopIteration, RuntimeError) as e:
+            raised = e
+            st.kept.append(e)
+        ids = [self._mid_of(st, x) for x in seen]
+        if any(i is None or i not in reach for i in ids):
+            st.fail("C12.apply", f"apply(fn) on module {mod} visited an object that is not a module reachable from it", module=mod)
+        if ev["raise_at"] is None or len(seen) < ev["raise_at"]:
+            if raised is not None:
+                st.fail("C12.apply", f"apply(fn) on module {mod} raised {type(raised).__name__}: {raised} although the callback did not", module=mod)
+            if set(ids) != set(reach):
+                st.fail("C12.apply", f"apply(fn) on module {mod} visited {len(set(ids))} of the {len(reach)} modules reachable from it", module=mod)
+            st.probes["apply_fn_visits_all"] += 1
+        else:
+            if raised is None:
+                st.notes["apply_swallowed_callback_exception"] += 1
+            st.probes["apply_fn_callback_raised_then_continued"] += 1
+        self._check_query(st, mod, "after apply(fn)")
+
+    def _ev_od_mutate(self, st, ev):
+        src = ev["mod"]
+        if src not in st.od or src not in st.M:
+            st.skipped += 1
+            return
+        od = st.od[src]
+        how = ev["how"]
+        if how in ("add", "replace"):
+            key = ev["key"] if how == "add" or not od else sorted(od)[ev["tag"] % len(od)]
+            t = st.Tag(ev["tag"], st.calllog)
+            tm = st.next_tag
+            st.next_tag += 1
+            st.M[tm], st.slots[tm], st.mode[tm], st.kind[tm] = t, OrderedDict(), True, "tag"
+            od[key] = t
+        elif how == "del" and od:
+            del od[sorted(od)[ev["tag"] % len(od)]]
+        elif how == "clear":
+            od.clear()
+        st.probes["callers_ordered_dict_reused_after_construction"] += 1
+        st.nontrivial = True
+        if ev.get("second") is not None and od:
+            # a second, different model built from the same (now changed) dict
+            mid = ev["second"]
+            m2 = st.must("C12.sequential_ctor_raises", "Sequential(OrderedDict)", st.SG.nn.Sequential, od)
+            st.M[mid] = m2
+            st.slots[mid] = OrderedDict((k, Slot("module", t)) for k, t in od.items())
+            st.mode[mid] = True
+            st.kind[mid] = "seq_dict"
+            st.od[mid] = od
+            st.next_mid = max(st.next_mid, mid + 1)
+            self._check_query(st, mid, "second Sequential from the caller's dict")
+        # the first container is exactly what it was
+        self._check_query(st, src, "after the caller changed ITS OrderedDict")
+        self._ev_seq_call(st, {"mod": src})
 
     def _ev_query(self, st, ev):
         if ev["mod"] not in st.M:
